@@ -43,9 +43,9 @@ type runner struct {
 	replay *predCase // replay mode: only this predicate is evaluated
 	// coverage
 	nClear, nReopen, nFlush, nReinsertSameAfterReopen, nReinsertSameAfterClear int
-	reopened, cleared                                                         bool
-	epochReopen, epochClear                                                   int
-	seriesEpochReopen, seriesEpochClear                                       []int
+	reopened, cleared                                                          bool
+	epochReopen, epochClear                                                    int
+	seriesEpochReopen, seriesEpochClear                                        []int
 }
 
 // predCase is a stored predicate (witness / replay).
@@ -696,15 +696,6 @@ func (r *runner) predicatePhase(rng *rand.Rand, n int, when string) {
 			}
 		}
 	}
-}
-
-func (r *runner) anyBad(p *Pred, obs []leafObs) bool {
-	for _, li := range p.Leaves(nil) {
-		if obs[li].bad {
-			return true
-		}
-	}
-	return false
 }
 
 func remapTree(p *Pred, m map[int]int) *Pred {
